@@ -229,15 +229,25 @@ GridStep ==
          /\ out' = Append(out, s2)
          /\ hist' = Append(hist, [ev |-> "gstep", from |-> ts.sf, used |-> Ckpts[k] - Ckpts[k - 1], prop |-> s2])
   /\ nacc' = nacc + 1
-  /\ IF k = Last THEN pc' = "done" /\ k' = k ELSE pc' = "grid_step" /\ k' = k + 1
+  /\ IF k = Last THEN pc' = "grid_finish" /\ k' = k ELSE pc' = "grid_step" /\ k' = k + 1
   /\ UNCHANGED <<rl, sol, natt>>
+
+\* the last step ends exactly at the last grid point: like the adaptive loop, the driver continues from the state
+\* at t1 through interpolate_fwd_at_t1 and hands its step_from to userfriendly_output (fix 7342909 in /repo)
+GridFinish ==
+  /\ pc = "grid_finish"
+  /\ LET r == InterpAtT1(ts.sf.t, ts.sf, ts.sf)
+     IN  /\ ts' = [ts EXCEPT !.sf = r[2]]
+         /\ hist' = Append(hist, [ev |-> "at", t1 |-> ts.sf.t, F |-> ts.sf, T |-> ts.sf])
+  /\ pc' = "done"
+  /\ UNCHANGED <<k, rl, sol, out, natt, nacc>>
 
 Terminated == pc \in {"done", "inexact"} /\ UNCHANGED vars
 
 Next ==
   \/ LoopEnter \/ RloopBody \/ RloopExit
   \/ InterpSkip \/ InterpBeyond \/ InterpAt
-  \/ Continue \/ Emit \/ WhileTest \/ AppendStep \/ GridStep
+  \/ Continue \/ Emit \/ WhileTest \/ AppendStep \/ GridStep \/ GridFinish
   \/ Terminated
 
 Spec     == Init /\ [][Next]_vars
@@ -248,7 +258,7 @@ Bounded == natt <= MaxAtt
 
 \* =========================== properties (C06) ==============================
 TypeOK ==
-  /\ pc \in {"loop_enter", "rloop", "interp", "loop_return", "while_test", "grid_step", "done", "inexact"}
+  /\ pc \in {"loop_enter", "rloop", "interp", "loop_return", "while_test", "grid_step", "grid_finish", "done", "inexact"}
   /\ k \in 2..Last
   /\ ts.dt \in Nat /\ ts.sf.t \in Int /\ ts.ifr.t \in Int
 
